@@ -7,6 +7,9 @@ package h
 var Registry = map[string]func(args []int64){
 	"H_Smoke":     func(a []int64) { H_Smoke(int(a[0])) },
 	"H_C09":       func(a []int64) { H_C09(int(a[0]), int(a[1])) },
+	"H_C14seq":    func(a []int64) { H_C14seq(int(a[0]), int(a[1])) },
+	"H_C14par":    func(a []int64) { H_C14par(int(a[0]), int(a[1]), int(a[2])) },
+	"H_C14parse":  func(a []int64) { H_C14parse(int(a[0]), int(a[1])) },
 	"H_C15":       func(a []int64) { H_C15(int(a[0]), int(a[1])) },
 	"H_C12":       func(a []int64) { H_C12(int(a[0]), int(a[1])) },
 	"H_C13a":      func(a []int64) { H_C13a(int(a[0]), int(a[1])) },
